@@ -95,7 +95,7 @@ struct Input {
 pub fn run(p: &Params) -> Report {
     let mut rep = Report::new("C04");
     rep.rule = "cases = (state, spending transaction) in which everything except authorisation is valid by construction (coins exist, balanced, fee paid, unlocked, well-formed): 1-8 inputs drawn from covenant families ed25519 legacy/new (right/wrong key, right/wrong slot, signature over another transaction, fields tampered after signing, truncated), hash-lock on data, time-lock and deadline on the previous header's height, spender-index-, value-, additional-data-, parent-height-, parent-index-, output-count-bound, self-hash and random programs; inputs may share one covenant hash while differing in environment; covenants may be missing or undecodable. Oracle: the reference interpreter on the reference environment heap for every input: accepted => every input authorised; for the two standard signature covenants also all authorised => accepted. Non-trivial = >= 2 inputs, or an environment-dependent covenant, or a tampered transaction; distinct by transaction hash".into();
-    let total = p.n(12_000, 240_000);
+    let total = p.n(100_000, 2_500_000);
     let mine = p.share(total);
     let mut rng = Rng::new(p.shard_seed() ^ 0xC04);
     let keys: Vec<Key> = (0..4).map(|i| key_n(p.seed, 40 + i)).collect();
